@@ -211,8 +211,25 @@ def r1_layout(ck, P):
     sf = P.fn('pixman_image_set_filter'); ck.saw(sf)
     S2 = Sym(P, sf)
     acc = False
+    SEPK = P.enum_const('PIXMAN_FILTER_SEPARABLE_CONVOLUTION')
+    def other_kind(x):
+        """is the comparison on a path taken only for a different filter kind (filter == K, K != SEPARABLE)?"""
+        for t, s_ in sf.guard_edges(x.bb.id):
+            if not t.a:
+                continue
+            c, p, ops = sf.cond(t.a[0])
+            if c is None or c.op != 'icmp' or p not in ('eq', 'ne'):
+                continue
+            ks = [int(o[1]) for o in ops if o[0] == 'c']
+            if not ks or not any(o[0] == 'a' for o in ops):
+                continue
+            if (p == 'eq') == (t.d['succ'][0] == s_) and ks[0] != SEPK:
+                return True
+        return False
     for x in sf.insts():
         if x.op == 'icmp' and x.pred in ('eq', 'ne'):
+            if other_kind(x):
+                continue
             for i in (0, 1):
                 if sf.strip_casts(x.a[i])[0] == 'a' and sf.params[sf.strip_casts(x.a[i])[1]][1] == 'i32':
                     e = S2.ev(x.a[1 - i])
@@ -854,3 +871,83 @@ def r11_final_correction(ck, P):
             ck.violation(R, f.name, 'final correction at %s' % x.loc(), 'the tap that absorbs the rounding residue becomes %s (old tap = %s, accumulated sum = %s): the phase then sums to something other than pixman_fixed_1 whenever the residue is non-zero, and a constant image is no longer reproduced' % (' + '.join('%s*%s' % (c, ('old' if k == ldkey else 'sum' if k in acc_terms else k)) for k, c in sorted(lin.items(), key=repr)), 'v%d' % ld[1], ', '.join('v%d' % k[1] for k in acc_terms)), x.loc())
     if n == 0:
         ck.incomplete(R, 'no tap correction by the accumulated sum found in create_1d_filter')
+
+
+def r12_param_block_validated(ck, P, rid='C18-R12'):
+    """T-GRD across functions: a filter kind whose fetcher indexes filter_params with a computed index (a convolution kernel read in a loop)
+    is accepted by the setter only after the length of the block has been compared with something: the setter copies n_params values into
+    its own allocation, and what the fetcher reads beyond them is outside it."""
+    R = ck.rule(rid, 'for every filter kind K whose pixel fetcher (the callee selected by the switch on image_common.filter) reads filter_params at a computed index, the function that installs filter_params has a path guarded by filter == K on which n_params takes part in a comparison before the block is installed: without it a block shorter than its header announces is copied into an allocation of n_params values and the fetcher reads past it', floor=2)
+    readers = set()
+    for g in P.functions():
+        ps = [x for x in g.insts() if x.op == 'load' and g.last_field(g.path(x.a[0])) == 'image_common.filter_params']
+        if not ps:
+            continue
+        ids = {x.i for x in ps}
+        grew = True
+        while grew:
+            grew = False
+            for x in g.insts():
+                if x.i in ids:
+                    continue
+                if x.op in ('getelementptr', 'bitcast', 'phi') and any(a[0] == 'v' and a[1] in ids for a in (x.a if x.op == 'phi' else x.a[:1])):
+                    ids.add(x.i); grew = True
+        for x in g.insts():
+            if x.op == 'getelementptr' and x.a[0][0] == 'v' and x.a[0][1] in ids:
+                idx = [st[1] for st in x.d.get('path', []) if st and st[0] in ('p', 'x') and isinstance(st[1], list)]
+                if any(i[0] == 'v' for i in idx):
+                    readers.add(g)
+            if x.op == 'load' and x.a[0][0] == 'v' and x.a[0][1] in ids and g.by_id[x.a[0][1]].op == 'phi':
+                readers.add(g)                  # a cursor walked through the block in a loop (*params++)
+    kinds = {}
+    for h in P.functions():
+        for c in h.calls():
+            g = P.resolve(h, c.callee) if c.callee else None
+            if g not in readers:
+                continue
+            for t, s in h.guard_edges(c.bb.id):
+                if t.op != 'switch':
+                    continue
+                y = h.v(t.a[0])
+                if y is None or y.op != 'load' or h.last_field(h.path(y.a[0])) != 'image_common.filter':
+                    continue
+                for cv, bb in t.d.get('cases', []):
+                    if bb == s:
+                        kinds.setdefault(int(cv), set()).add(g.name)
+    if not kinds:
+        raise AnalysisBroken('%s: no switch on image_common.filter that selects a reader of filter_params found' % rid)
+    setters = [f for f in P.functions() if any(x.op == 'store' and f.last_field(f.path(x.a[1])) == 'image_common.filter_params' and x.a[0][0] != 'n' for x in f.insts()) and f.exported]
+    if len(setters) != 1:
+        raise AnalysisBroken('%s: expected one exported function installing image_common.filter_params, found %s' % (rid, [f.name for f in setters]))
+    f = setters[0]; ck.saw(f)
+    npar = None
+    for x in f.insts():
+        if x.op == 'store' and f.last_field(f.path(x.a[1])) == 'image_common.n_filter_params' and x.a[0][0] == 'a':
+            npar = x.a[0][1]
+    fpar = None
+    for x in f.insts():
+        if x.op == 'store' and f.last_field(f.path(x.a[1])) == 'image_common.filter' and x.a[0][0] == 'a':
+            fpar = x.a[0][1]
+    if npar is None or fpar is None:
+        raise AnalysisBroken('%s: %s does not store its filter / n_params parameters' % (rid, f.name))
+    inv = {v: k for k, v in P.enum('pixman_filter_t').items()}
+    for K, gs in sorted(kinds.items()):
+        ok = False
+        for x in f.insts():
+            if x.op != 'icmp' or ('arg', npar) not in common.value_arg_roots(f, x.a[0]) | common.value_arg_roots(f, x.a[1]):
+                continue
+            for t, s in f.guard_edges(x.bb.id):
+                if not t.a:
+                    continue
+                c, p, ops = f.cond(t.a[0])
+                if c is None or c.op != 'icmp' or p not in ('eq', 'ne'):
+                    continue
+                if not any(list(o) == ['a', fpar] for o in ops) or not any(o[0] == 'c' and int(o[1]) == K for o in ops):
+                    continue
+                if (p == 'eq') == (t.d['succ'][0] == s):
+                    ok = True
+        where = '%s: filter == %s (read at a computed index by %s)' % (f.name, inv.get(K, K), ', '.join(sorted(gs)))
+        if ok:
+            ck.ok(R, where, 'n_params compared under that guard')
+        else:
+            ck.violation(R, f.name, 'parameter block of %s' % inv.get(K, K), '%s installs the parameter block of %s without any comparison that involves n_params on the path guarded by filter == %s, yet %s reads filter_params at an index computed from the header: a block shorter than width * height + header is copied into an allocation of n_params values and read past its end' % (f.name, inv.get(K, K), inv.get(K, K), ', '.join(sorted(gs))), '%s:%d' % (f.unit.name, f.line))
